@@ -178,6 +178,43 @@ func checkUpsertTargets(c *Ctx, rule string) {
 			c.Fail(rule, key, x.s.Pos, form+" into "+table+"("+strings.Join(inserted, ",")+") names no PRIMARY KEY/UNIQUE column or rowid (declared unique: "+strings.Join(decl, " ")+" at "+t.declared+"): nothing can conflict, so every execution appends a row and single-row readers keep returning the oldest one")
 		}
 	}
+	// single-row tables: read by a singleton reader (SELECT … LIMIT 1 without WHERE, or WHERE <col> = <constant>);
+	// every INSERT into such a table must carry a conflict clause (checked above) — a plain INSERT appends a second
+	// row and the reader keeps returning the first
+	reSelect := regexp.MustCompile(`(?is)^\s*SELECT\s+.*?\s+FROM\s+([A-Za-z_][A-Za-z0-9_]*)\s*(.*)$`)
+	rePlainInsert := regexp.MustCompile(`(?is)^\s*INSERT\s+INTO\s+([A-Za-z_][A-Za-z0-9_]*)\b`)
+	singleRow := map[string]string{}
+	for _, x := range subs {
+		if m := reSelect.FindStringSubmatch(x.text); m != nil {
+			rest := strings.ToUpper(m[2])
+			noWhere := !strings.Contains(rest, "WHERE") && !strings.Contains(rest, "ORDER BY") && !strings.Contains(rest, "GROUP BY") && regexp.MustCompile(`LIMIT\s+1\b`).MatchString(rest)
+			constWhere := regexp.MustCompile(`^WHERE\s+[A-Z_]+\s*=\s*[0-9]+\s*;?$`).MatchString(strings.TrimSpace(rest))
+			if noWhere || constWhere {
+				singleRow[x.s.Backend+"."+strings.ToLower(m[1])] = x.s.Pos
+			}
+		}
+	}
+	nSingle := 0
+	for _, x := range subs {
+		m := rePlainInsert.FindStringSubmatch(x.text)
+		if m == nil {
+			continue
+		}
+		reader, isSingle := singleRow[x.s.Backend+"."+strings.ToLower(m[1])]
+		if !isSingle {
+			continue
+		}
+		nSingle++
+		hasConflict := reOnConflict.MatchString(x.text)
+		fnName := "?"
+		if x.s.Fn != nil {
+			fnName = x.s.Fn.Name()
+		}
+		c.Check(hasConflict, rule, x.s.Backend+"."+fnName+":INSERT into single-row table "+strings.ToLower(m[1])+" pins the row", x.s.Pos,
+			"insert carries a conflict clause",
+			"plain INSERT into "+m[1]+", which is read as a single row at "+reader+": every execution appends a row and the reader keeps returning the oldest (an upgraded database forgets its schema version / counters)")
+	}
+	c.Count("single-row tables (singleton readers)", len(singleRow))
 	c.Count("statements with a conflict clause", n)
 	c.Floor(rule, "statements with a conflict clause", n, 2)
 }
